@@ -22,6 +22,7 @@ import Minidyn.Props.Reach
 import Minidyn.Props.C08
 import Minidyn.Props.C18
 import Minidyn.Props.C05Seq
+import Minidyn.Props.C10
 namespace Minidyn.Props.Refine
 open Minidyn Minidyn.Client Minidyn.Table Minidyn.Props.C01
 
@@ -256,6 +257,21 @@ theorem put_then_get (c c' : Client) (tb : Bytes) (item : Item) (cond : Option B
     rw [get_refines c' tb item t' key hf ht' hk', hsdk]
     have : absC c' tb key = some item := by unfold absC; rw [ht']; rw [ht'] at hstored; exact hstored
     rw [this]; rfl
+
+/-- **C10 at the client**: an item written with PutItem is read back unchanged by GetItem — through the v1 client always,
+    through the v2 client when it holds no empty binary, list, map or set at any depth (the recorded finding
+    KF-C10-v2-empty-as-null is exactly the complement) -/
+theorem put_get_roundtrip (c c' : Client) (tb : Bytes) (item : Item) (cond : Option Bytes) (ex : Exprs)
+    (hinv : Reach.ClientInv c) (h : putItem c tb item cond ex = (c', .ok))
+    (hne : c.sdk = .v1 ∨ C10.NoEmptyKvs item = true) :
+    Client.getItem c' tb item = (c', .item (some item)) := by
+  rw [put_then_get c c' tb item cond ex hinv h]
+  cases hs : c.sdk with
+  | v1 => rw [C10.v1_roundtrip]
+  | v2 =>
+    rcases hne with h1 | h2
+    · rw [hs] at h1; cases h1
+    · rw [C10.v2_roundtrip_partial item h2]
 
 /-! ### along a history -/
 
